@@ -128,6 +128,14 @@ C04Family == { Scn("C04", FE(t, <<>>, tf), <<L("", "T4", "")>>, WithFailing(cs, 
                  tf \in BOOLEAN, cs \in ChainShapes, S \in SUBSET (1..3) }
 
 -----------------------------------------------------------------------------
+\* the matching table itself: every (requirement, provision) pair over a small label universe, the
+\* provision either supplied directly or produced by a parameterless provider
+MatchU == {L(n, t, s) : n \in {"", "a", "b"}, t \in {"T1", "I1"}, s \in {"", "s", "t"}}
+MatchFamily == { Scn("match", F(<<rq>>, <<>>), <<pv>>, <<>>) : rq \in MatchU, pv \in {x \in MatchU : x.type = "T1"} }
+               \cup { Scn("match", F(<<rq>>, <<>>), <<>>, <<F(<<>>, <<pv>>)>>) : rq \in MatchU, pv \in MatchU }
+               \cup { Scn("match", F(<<rq>>, <<>>), <<L("", "T2", "")>>, <<F(<<L("", "T2", "")>>, <<pv>>)>>) : rq \in MatchU, pv \in MatchU }
+
+-----------------------------------------------------------------------------
 \* C16: option processing.  Exact-key targets; every arrangement of the supplied values in which keys
 \* repeat (the last occurrence must win), every default/call split, nil values, a nil option.
 \* (name casing is varied by the harness at the API and in the struct tags)
@@ -144,13 +152,13 @@ C16Family == UNION { { [Scn("C16", F(t, <<>>), ins, <<>>) EXCEPT !.ndef = nd, !.
 -----------------------------------------------------------------------------
 FamilyScenarios == CASE Family = "C03" -> C03Family
                      [] Family = "C07" -> C07Family
-                     [] Family = "C05" -> C05Family \cup CycleFamily
+                     [] Family = "C05" -> C05Family \cup CycleFamily \cup MatchFamily
                      [] Family = "C08" -> C08Family
-                     [] Family = "C02" -> CycleFamily \cup C05Family
+                     [] Family = "C02" -> CycleFamily \cup C05Family \cup MatchFamily
                      [] Family = "C06" -> CycleFamily \cup C04Family
                      [] Family = "C04" -> C04Family
                      [] Family = "C13" -> CycleFamily
-                     [] Family = "C01" -> C03Family \cup CycleFamily
+                     [] Family = "C01" -> C03Family \cup CycleFamily \cup MatchFamily
                      [] Family = "C16" -> {x \in C16Family : x.ndef <= Len(x.inputs)}
                      [] OTHER -> {}
 
